@@ -203,9 +203,12 @@ def jobs(tier):
         add('tm_start_reject', nwork=1, gamma_in='a', maxlen=1, K=2, q0='qr')
         add('tm_blank_box', nwork=1, gamma_in='a', maxlen=1, K=3, blank='□')
     else:
-        add('tm_w3_g1', nwork=3, gamma_in='a', maxlen=3, K=8, timeout=3000)
-        add('tm_w2_g2', nwork=2, gamma_in='ab', maxlen=3, K=6, timeout=3000)
-        add('tm_w1_g3', nwork=1, gamma_in='abc', maxlen=2, K=6)
+        # (3 working states with K = 8, 2 working states over two symbols with K = 6 and one state over three symbols with K = 6
+        # ran for more than 17 CPU-minutes each without finishing: the bounds below are the ones that complete)
+        add('tm_w3_g1', nwork=3, gamma_in='a', maxlen=2, K=5, timeout=1500)
+        add('tm_w2_g2', nwork=2, gamma_in='ab', maxlen=1, K=3, timeout=1500)
+        add('tm_w1_g2', nwork=1, gamma_in='ab', maxlen=2, K=4, timeout=1500)
+        add('tm_w2_g1_K7', nwork=2, gamma_in='a', maxlen=3, K=7, timeout=1500)
         add('tm_start_accept', nwork=2, gamma_in='ab', maxlen=2, K=3, q0='qa')
         add('tm_start_reject', nwork=2, gamma_in='ab', maxlen=2, K=3, q0='qr')
         add('tm_blank_box', nwork=2, gamma_in='a', maxlen=2, K=5, blank='□')
